@@ -463,6 +463,15 @@ pub fn cmd_matrix(a: &[String]) {
                 }
                 out.cell(&Op::Inst(Inst::Disp { sender: OWNER, hub: HUB, reward: REWARD, sd: 0, bd: 1, keeper: KEEPER, rate: *fee, swap: SWAP, oracle: ORACLE, denoms: vec![0, 1] }));
             }
+            // a dispatcher instantiated with an *empty* stSei reward denomination (instantiate only
+            // validates the keeper rate): whatever it was instantiated with, the denomination stays
+            out.step(&Op::Inst(Inst::Disp { sender: OWNER, hub: HUB, reward: REWARD, sd: 3, bd: 1, keeper: KEEPER, rate: D / 20, swap: SWAP, oracle: ORACLE, denoms: vec![0, 1] }));
+            out.step(&Op::Save);
+            for sd in [0u8, 1, 3] {
+                for kr in [None, Some(D / 10)] {
+                    out.cell(&tx(OWNER, DISP, Call::Disp(DispMsg::UConfig(None, None, Some(sd), None, None, kr))));
+                }
+            }
         }
         _ => panic!("unknown matrix kind"),
     }
